@@ -91,6 +91,10 @@ func genRelayCfg(g *gen, focus string) *Cfg {
 		l.MustRR = g.chance(40)
 		c.Listens = append(c.Listens, l)
 	}
+	if focus == "C07" && nl == 1 && g.chance(12) {
+		// the entry listens on the wildcard address: the datagram socket is a dual-stack one, the proxy calls itself 0.0.0.0
+		c.Listens[0].Addr = "0.0.0.0"
+	}
 	// aliases for listeners and names for next hops
 	for i, l := range c.Listens {
 		if g.chance(60) {
@@ -202,6 +206,17 @@ func (c *Cfg) keepNextHop() bool {
 }
 
 func (l *ListenCfg) receivedSupport() bool { return l.NoReceived != "true" }
+
+// ip is the address packets for the listen entry are sent to: the configured one, or - when the entry listens on the
+// wildcard address - the host's address in the simulated network. Addr stays what the proxy calls itself.
+func (l *ListenCfg) ip() string {
+	if l.Addr == "0.0.0.0" || l.Addr == "" || l.Addr == "::" {
+		return wildcardHostIP
+	}
+	return l.Addr
+}
+
+const wildcardHostIP = "10.0.0.1"
 
 func (l *ListenCfg) port(transport string) int {
 	if transport == "tcp" {
@@ -1012,7 +1027,7 @@ func execRelay(t *testing.T, p *Plan) *Result {
 				l := p.Cfg.Listens[op.Listen]
 				if l.UDP != 0 {
 					w.stat("probe:udp-keepalive-datagram")
-					w.N.InjectUDP(udpAddr(hostPort(op.SrcIP, op.SrcPort)), udpAddr(hostPort(l.Addr, l.UDP)), op.Data, time.Duration(op.DelayUs)*time.Microsecond+100*time.Microsecond)
+					w.N.InjectUDP(udpAddr(hostPort(op.SrcIP, op.SrcPort)), udpAddr(hostPort(l.ip(), l.UDP)), op.Data, time.Duration(op.DelayUs)*time.Microsecond+100*time.Microsecond)
 				}
 			case "advance":
 				w.K.Advance(time.Duration(op.Dur))
@@ -1077,10 +1092,10 @@ func (st *relayState) inject(op *Op) bool {
 	}
 	if op.Proto == "udp" {
 		from := udpAddr(hostPort(op.SrcIP, op.SrcPort))
-		w.N.InjectUDP(from, udpAddr(hostPort(l.Addr, l.UDP)), op.Data, delay+100*time.Microsecond)
+		w.N.InjectUDP(from, udpAddr(hostPort(l.ip(), l.UDP)), op.Data, delay+100*time.Microsecond)
 		return true
 	}
-	c, err := w.TCPConnTo(op.Conn, op.SrcIP, op.SrcPort, hostPort(l.Addr, l.TCP))
+	c, err := w.TCPConnTo(op.Conn, op.SrcIP, op.SrcPort, hostPort(l.ip(), l.TCP))
 	if err != nil {
 		w.K.Failures = append(w.K.Failures, "harness: cannot connect to listener: "+err.Error())
 		return false
@@ -1971,7 +1986,7 @@ func (st *relayState) isProxyAddr(host string) bool {
 		return false
 	}
 	for _, l := range st.c.Listens {
-		if l.Addr == ip {
+		if l.Addr == ip || l.ip() == ip {
 			return true
 		}
 	}
